@@ -477,6 +477,6 @@ def run(rep, tier, seed):
 def replay(data):
     import json
     c = Case.from_json(data["case"])
-    variant = "asan"
+    variant = os.environ.get("VERIF_VARIANT", "asan")       # e.g. asan-assert for aborts of the assert-enabled build
     r = run_cases([c], variant=variant)[c.id]
     print(json.dumps(r, indent=1)[:12000])
